@@ -362,6 +362,12 @@ func (p *Prog) resolve(specs []epSpec) ([]*ssa.Function, error) {
 func (p *Prog) DecEntries() ([]*ssa.Function, error)  { return p.resolve(decEntrySpecs) }
 func (p *Prog) HashEntries() ([]*ssa.Function, error) { return p.resolve(hashEntrySpecs) }
 
+// StateEntries: the hashing entry points whose shared state C04/C05 enumerate — the perceptual hashes and the
+// other exported hash of package imagehash (the pixel-layout rules of C19/C20 stay on the perceptual hashes).
+func (p *Prog) StateEntries() ([]*ssa.Function, error) {
+	return p.resolve(append(append([]epSpec{}, hashEntrySpecs...), epSpec{"imagehash", "", "EncodeBlurHashFast"}))
+}
+
 // LibReach returns the library functions reachable from the given roots, sorted by name.
 func (p *Prog) LibReach(roots []*ssa.Function) []*ssa.Function {
 	r := p.Reach(roots)
